@@ -312,53 +312,9 @@ impl Prop for C12 {
 /// Thorough tier: the coverage-guided campaign (cargo-fuzz / libFuzzer, target c12_decode,
 /// same oracle inside the target). A crash input becomes a violation with a replay file.
 fn fuzz_campaign(seed: u64, rep: &mut ShardReport) {
-    let work = format!("/dev/shm/rlv-{}/fuzz", std::process::id());
-    let corpus = format!("{}/corpus", work);
-    let artifacts = format!("{}/artifacts/", work);
-    let target_dir = "/verif/fuzz/target";
-    let _ = std::fs::create_dir_all(&corpus);
-    let _ = std::fs::create_dir_all(&artifacts);
-    for p in fuzz_corpus_files() {
-        if let Some(n) = p.file_name() {
-            let _ = std::fs::copy(&p, format!("{}/{}", corpus, n.to_string_lossy()));
-        }
-    }
     let runs = std::env::var("RLV_FUZZ_RUNS").ok().and_then(|s| s.parse::<u64>().ok()).unwrap_or(20_000_000);
-    let out = std::process::Command::new("cargo")
-        .args(["+nightly", "fuzz", "run", "--fuzz-dir", "/verif/fuzz", "--target-dir", target_dir, "--sanitizer", "none", "c12_decode", &corpus, "--"])
-        .arg(format!("-runs={}", runs))
-        .arg(format!("-seed={}", (seed % 1_000_000) + 1))
-        .args(["-max_len=512", "-len_control=0", "-malloc_limit_mb=8000", "-rss_limit_mb=12000", "-max_total_time=900"])
-        .arg(format!("-artifact_prefix={}", artifacts))
-        .env("CARGO_NET_OFFLINE", "true")
-        .output();
-    match out {
-        Ok(o) => {
-            let text = String::from_utf8_lossy(&o.stderr).to_string();
-            let done = text.lines().rev().find(|l| l.contains("Done ") || l.contains("DONE")).unwrap_or("").to_string();
-            let execs = text.lines().rev().find_map(|l| l.strip_prefix('#').and_then(|r| r.split_whitespace().next()).and_then(|n| n.parse::<u64>().ok())).unwrap_or(0);
-            rep.evaluations += execs;
-            *rep.labels.entry("libfuzzer_execs".into()).or_insert(0) += execs;
-            rep.notes.push(format!("libFuzzer c12_decode: {}", done.trim()));
-            let mut crashed = false;
-            if let Ok(rd) = std::fs::read_dir(&artifacts) {
-                for e in rd.flatten() {
-                    if let Ok(d) = std::fs::read(e.path()) {
-                        crashed = true;
-                        let f = match check_bytes(&d, "a libFuzzer crash input") {
-                            Err(f) => f,
-                            Ok(_) => Fail::new("fuzz-target-crash", format!("libFuzzer reported a crash on {} bytes that the in-harness oracle accepts: {}", d.len(), hex(&d))),
-                        };
-                        let case = Case { blobs: vec![d], recs: vec![], ..crate::ops::sample_case() };
-                        rep.violations.push(crate::runner::Violation { key: f.key, msg: f.msg, case: serde_json::to_value(&case).unwrap(), origin: "libFuzzer c12_decode".into() });
-                    }
-                }
-            }
-            if !o.status.success() && !crashed {
-                rep.notes.push(format!("libFuzzer run did not complete (status {:?}); treated as inconclusive for the campaign part: {}", o.status.code(), text.lines().rev().take(3).collect::<Vec<_>>().join(" | ")));
-            }
-        }
-        Err(e) => rep.notes.push(format!("could not start cargo fuzz: {e}")),
-    }
-    let _ = std::fs::remove_dir_all(&work);
+    crate::fuzzrun::campaign("c12_decode", seed, runs, 512, &fuzz_corpus_files(), rep, &|d: &[u8]| match check_bytes(d, "a libFuzzer crash input") {
+        Err(f) => f,
+        Ok(_) => Fail::new("fuzz-target-crash", format!("libFuzzer reported a crash on {} bytes that the in-harness oracle accepts: {}", d.len(), hex(d))),
+    });
 }
